@@ -146,6 +146,11 @@ func (vc *VC) singleScript(target *Obligation, model bool) string {
 // singleScriptOpt: deep additionally instantiates the quantified hypotheses at the index terms of the goal's
 // array reads, iterated (bounded E-matching done by the generator).
 func (vc *VC) singleScriptOpt(target *Obligation, model bool, deep bool) string {
+	return vc.singleScriptOpt2(target, model, deep, vc.ringMode)
+}
+
+// singleScriptOpt2: sliced additionally drops the hypotheses outside the goal's cone of influence (slice.go).
+func (vc *VC) singleScriptOpt2(target *Obligation, model bool, deep bool, sliced bool) string {
 	var b strings.Builder
 	decls := append([]string{}, vc.decls...)
 	for _, ax := range vc.e.axioms {
@@ -309,9 +314,16 @@ func (vc *VC) singleScriptOpt(target *Obligation, model bool, deep bool) string 
 			}
 		}
 	}
+	var keep []bool
+	if sliced && tpos >= 0 {
+		keep = vc.sliceItems(goal, tpos)
+	}
 	for ii, it := range vc.items {
 		if cut != nil && ii >= vc.entryItems && ii < cut.from {
 			continue // summarised by the cut site's assertions
+		}
+		if keep != nil && ii < tpos && !keep[ii] {
+			continue
 		}
 		if it.Ob == nil {
 			if strings.HasPrefix(it.Text, "(assert ") && strings.Contains(it.Text, "(forall ") {
@@ -353,7 +365,20 @@ func (vc *VC) singleScriptOpt(target *Obligation, model bool, deep bool) string 
 			if model {
 				b.WriteString("(get-model)\n")
 			}
-			return finishScript(append(decls, extraDecls...), b.String())
+			body := b.String()
+			if vc.ringMode {
+				hs := heapSort("fe")
+				heapNames := map[string]bool{}
+				for _, d := range decls {
+					if strings.HasPrefix(d, "(declare-const ") && strings.HasSuffix(d, " "+hs+")") {
+						heapNames[strings.Fields(d)[1]] = true
+					}
+				}
+				si := vc.sliceData()
+				body = expandReadsScript(body, func(n string) bool { return heapNames[n] }, vc.allocRefs,
+					func(n string) bool { return si.base[n] && strings.Contains(n, ".pr_") })
+			}
+			return finishScript(append(decls, extraDecls...), body)
 		}
 		if it.Ob.Term != "true" {
 			emit(it.Ob.Term)
